@@ -308,6 +308,28 @@ Definition c09_step (rf0 : nat) (g : regs) (prev : obs) (e : event) (cur : obs) 
   | _ => Nat.eqb (length starts) 0
   end.
 
+(** *** C09, second oracle: one registration per UUID *)
+(** oracle memory: the UUID every address registered with last.  A replica that registers again under a
+    new address (same UUID) replaces its older registration: after a [Register a u ..] with u <> 0 no
+    other registered address carries the UUID u (otherwise one replica counts twice towards the majority) *)
+Definition uids := list (addr * nat).
+Definition uids_upd (t : uids) (e : event) : uids :=
+  match e with
+  | Register a u _ _ _ _ => if Nat.eqb u 0 then t else aset t a u
+  | _ => t
+  end.
+Definition c09u_step (t : uids) (prev : obs) (e : event) (cur : obs) : bool :=
+  match e with
+  | Register a u _ _ _ _ =>
+      if Nat.eqb u 0 then true
+      else
+        let t1 := uids_upd t e in
+        forallb (fun x => Nat.eqb x a
+                          || negb (match aget t1 x with Some v => Nat.eqb v u | None => false end))
+                (o_registered cur)
+  | _ => true
+  end.
+
 (** ** concurrent pairs: what the properties say when a second request is issued while the first is in
     flight (the intermediate state is not observable; the rules use the script of the first request) *)
 Definition lift (f : obs -> event -> obs -> bool) (pairf : obs -> event -> event -> obs -> bool)
@@ -456,6 +478,28 @@ Fixpoint walk_g (f : regs -> obs -> xevent -> obs -> bool) (i : nat) (g : regs) 
   | _, _ => None
   end.
 
+(** the UUID memory sees both requests of a pair in serialisation order (as [xregs_upd]).  The only
+    observation of a pair is taken after both requests: a second request that registers a UUID is
+    checked against it with the memory updated by the first; otherwise the second request can only
+    delete registrations, and the first request is checked against it *)
+Definition xuids_upd (t : uids) (x : xevent) : uids :=
+  match x with One e => uids_upd t e | Two a b => uids_upd (uids_upd t a) b end.
+Definition liftu (t : uids) (prev : obs) (x : xevent) (cur : obs) : bool :=
+  match x with
+  | One e => c09u_step t prev e cur
+  | Two a b =>
+      match b with
+      | Register _ ub _ _ _ _ =>
+          if Nat.eqb ub 0 then c09u_step t prev a cur else c09u_step (uids_upd t a) prev b cur
+      | _ => c09u_step t prev a cur
+      end
+  end.
+Fixpoint walk_u (f : uids -> obs -> xevent -> obs -> bool) (i : nat) (t : uids) (prev : obs) (es : list xevent) (os : list obs) : option nat :=
+  match es, os with
+  | e :: r, o :: os' => if f t prev e o then walk_u f (S i) (xuids_upd t e) o r os' else Some i
+  | _, _ => None
+  end.
+
 Record xcase := mkxcase { x_case : case; x_quiet : list bool }.
 
 Definition check_case (x : xcase) : verdict :=
@@ -468,7 +512,10 @@ Definition check_case (x : xcase) : verdict :=
     (walk (lift (c03_step rf0) (c03_pair rf0)) 0 o0 (c_events c) (c_obs c))
     (walk (lift (c04_step rf0) (c04_pair rf0)) 0 o0 (c_events c) (c_obs c))
     (walk (lift (c05_step rf0) nopair) 0 o0 (c_events c) (c_obs c))
-    (walk_g (fun g => lift (c09_step rf0 g) nopair) 0 [] o0 (c_events c) (c_obs c))
+    (match walk_g (fun g => lift (c09_step rf0 g) nopair) 0 [] o0 (c_events c) (c_obs c) with
+     | Some i => Some i
+     | None => walk_u liftu 0 [] o0 (c_events c) (c_obs c)
+     end)
     (walk_q (fun q => lift (c13_step rf0 q) (c13_pair rf0)) 0 o0 (c_events c) (c_obs c) (x_quiet x))
     (walk_q (fun q => lift (c18_step rf0 q) (fun prev a b cur => c18_step rf0 q prev (SetMode 0%nat WO) cur)) 0 o0 (c_events c) (c_obs c) (x_quiet x))
     (walk (lift (c01_step rf0) nopair) 0 o0 (c_events c) (c_obs c))
